@@ -148,5 +148,14 @@ Definition run_copier (c : value) : value :=
                                              (as_bool f1) (as_bool f2) (as_bool f3) (as_bool f4) (as_bool f5)) ops')))
       | None => verr
       end
+  (* a random-access source that hands out at most [cap] bytes per read call: the copier then works like one whose block
+     size is min bs cap (it writes what it got and asks again until the end of the device) *)
+  | VL (VB content :: VI seq :: VI bs :: VI from :: VI to :: VL [VI f1; VI f2; VI f3; VI f4; VI f5; VI cap] :: VL ops :: _) =>
+      match dec_cop_ops ops with
+      | Some ops' =>
+          VL (map cev_value (snd (c_run 0 (mk_cop content (as_bool seq) (if (0 <? cap) && negb (as_bool seq) then Z.min bs cap else bs) from to
+                                             (as_bool f1) (as_bool f2) (as_bool f3) (as_bool f4) (as_bool f5)) ops')))
+      | None => verr
+      end
   | _ => verr
   end.
